@@ -196,7 +196,7 @@ pub fn run(env: &Env) -> i32 {
         }
         st.violations.extend(vs);
     }
-    tape_stream(env, &mut st, "histories", env.tier.n(240, 5000), 700, |tape, s| {
+    tape_stream(env, &mut st, "histories", env.tier.n(1000, 20_000), 700, |tape, s| {
         let mut t = Tape::new(tape);
         let h = gen_history(&mut t);
         s.sample(1, || json!({"cwd_kind": h.cwd_kind, "stale": h.stale, "runs": h.runs, "edit_between": h.edit_between, "tree": crate::props::c03::summarize(&h.spec)}));
